@@ -210,6 +210,7 @@ pub fn types_pkg(r: &mut Rng, all: bool) -> String {
         "  function \"+\"(l, r : rec_t) return rec_t;",
         "  procedure p_clear(signal r : out rec_t);",
         "  procedure p_swap(variable a, b : inout integer);",
+        "  procedure p_tick;",
         "  type prot_t is protected\n    procedure inc(n : natural := 1);\n    impure function get return integer;\n  end protected;",
         "  component comp is\n    generic (G : natural := 1);\n    port (a : in @SL@; b : out @SL@);\n  end component;",
         "  type matrix_t is array (natural range <>, natural range <>) of @SL@;",
@@ -232,6 +233,9 @@ pub fn types_pkg(r: &mut Rng, all: bool) -> String {
     }
     if has("procedure p_swap") {
         body.push_str("  procedure p_swap(variable a, b : inout integer) is\n    variable t : integer;\n  begin\n    t := a;\n    a := b;\n    b := t;\n  end;\n");
+    }
+    if has("procedure p_tick") {
+        body.push_str("  procedure p_tick is\n  begin\n    null;\n  end procedure;\n");
     }
     if has("type prot_t") {
         body.push_str("  type prot_t is protected body\n    variable cnt : integer := 0;\n    procedure inc(n : natural := 1) is\n    begin\n      cnt := cnt + n;\n    end procedure;\n    impure function get return integer is\n    begin\n      return cnt;\n    end function;\n  end protected body;\n");
@@ -455,6 +459,7 @@ pub const WORDS: &[&str] = &[
     "<<", ">>", "&", "|", "<>", "@", "^", ",", "+", "-", "*", "/", "**", "=", "/=", "?=", "??", "null", "not", "and", "x\"", "16#",
     "1", "0", "'0'", "\"01\"", "1.0", "1 ns", "rec_t", "byte_t", "f_inc", "reg", "clk", "leaf", "types_pkg", "std", "ieee", "view",
     "impure", "pure", "parameter", "force", "release", "postponed", "guarded", "transport", "inertial", "unaffected", "default",
+    "p_tick", "p_clear", "p_swap", "comp", "state_t", "idle", "prot_t", "u1", "mark", "seq", "rtl", "int_util", "proj_ctx", "slv_t", "acc_t",
     "label", "group", "disconnect", "register", "bus", "linkage", "buffer", "inout", "out", "in", "shared", "vunit", "--", "/*", "*/",
 ];
 
@@ -772,4 +777,317 @@ pub fn gen_case(seed: u64, idx: usize, nsteps: usize) -> Case {
         edits,
         cursors: vec![],
     }
+}
+
+// ------------------------------------------------------------------------------------------------
+// kind confusion: at every kind of use site substitute the name of a declaration of every other kind
+// ------------------------------------------------------------------------------------------------
+pub const ZOO_PKG: &str = "package zoo_g0 is
+  generic (g : integer := 0);
+  constant ic : integer := g;
+end package;
+
+package zoo_pkg is
+  procedure p_none;
+  procedure p_def(x : integer := 0);
+  procedure p_arg(x : integer);
+  procedure p_ovl;
+  procedure p_ovl(x : integer);
+  function f_none return integer;
+  function f_def(x : integer := 0) return integer;
+  function f_arg(x : integer) return integer;
+  impure function f_imp return boolean;
+  function f_ovl(x : integer) return integer;
+  function f_ovl(x : bit) return bit;
+  function f_bool return boolean;
+  type t_enum is (lit_a, lit_b, lit_c);
+  subtype st_int is integer range 0 to 7;
+  type t_rec is record
+    el : integer;
+    el2 : bit;
+  end record;
+  type t_arr is array (0 to 3) of integer;
+  type t_uarr is array (natural range <>) of integer;
+  type t_phys is range 0 to 1000 units u_a; u_b = 10 u_a; end units;
+  type t_acc is access integer;
+  type t_file is file of integer;
+  type t_prot is protected
+    procedure m_inc;
+    impure function m_get return integer;
+  end protected;
+  function \"+\"(l, r : t_rec) return t_rec;
+  constant c_int : integer := 2;
+  constant c_bool : boolean := true;
+  constant c_time : time := 1 ns;
+  constant c_rec : t_rec := (el => 1, el2 => '0');
+  constant c_arr : t_arr := (others => 0);
+  constant c_enum : t_enum := lit_a;
+  constant c_def : integer;
+  signal s_sig : bit;
+  signal s_int : integer;
+  shared variable sv_prot : t_prot;
+  file fl_file : t_file;
+  alias a_obj is c_int;
+  alias a_typ is t_enum;
+  alias a_sub is f_arg[integer return integer];
+  alias a_proc is p_none[];
+  attribute at_attr : integer;
+  attribute at_attr of c_int : constant is 3;
+  component comp_c is
+    port (a : in bit := '0');
+  end component;
+  package inner_pkg is new work.zoo_g0 generic map (g => 1);
+  constant c_uarr : t_uarr(0 to 3) := (others => 0);
+end package zoo_pkg;
+
+package body zoo_pkg is
+  procedure p_none is begin null; end;
+  procedure p_def(x : integer := 0) is begin null; end;
+  procedure p_arg(x : integer) is begin null; end;
+  procedure p_ovl is begin null; end;
+  procedure p_ovl(x : integer) is begin null; end;
+  function f_none return integer is begin return 1; end;
+  function f_def(x : integer := 0) return integer is begin return x; end;
+  function f_arg(x : integer) return integer is begin return x; end;
+  impure function f_imp return boolean is begin return true; end;
+  function f_ovl(x : integer) return integer is begin return x; end;
+  function f_ovl(x : bit) return bit is begin return x; end;
+  function f_bool return boolean is begin return false; end;
+  type t_prot is protected body
+    variable cnt : integer := 0;
+    procedure m_inc is begin cnt := cnt + 1; end;
+    impure function m_get return integer is begin return cnt; end;
+  end protected body;
+  function \"+\"(l, r : t_rec) return t_rec is begin return l; end;
+  constant c_def : integer := 5;
+end package body zoo_pkg;
+
+entity zoo_leaf is
+  port (a : in bit := '0');
+end entity;
+
+architecture leaf_arch of zoo_leaf is
+begin
+end architecture;
+
+context zoo_ctx is
+  library lib;
+  use lib.zoo_pkg.all;
+end context;
+";
+
+/// names of declarations of every kind that are visible at the use sites
+pub const ZOO_NAMES: &[&str] = &[
+    "p_none", "p_def", "p_arg", "p_ovl", "f_none", "f_def", "f_arg", "f_imp", "f_ovl", "f_bool", "t_enum", "st_int", "t_rec", "t_arr", "t_uarr",
+    "t_phys", "t_acc", "t_file", "t_prot", "lit_a", "u_a", "u_b", "el", "c_int", "c_bool", "c_time", "c_rec", "c_arr", "c_enum", "c_def", "s_sig",
+    "s_int", "sv_prot", "fl_file", "a_obj", "a_typ", "a_sub", "a_proc", "at_attr", "comp_c", "inner_pkg", "zoo_pkg", "lib", "work", "std", "zoo_leaf",
+    "zoo_ent", "zoo_arch", "zoo_ctx", "lbl_proc", "lbl_blk", "lbl_inst", "lbl_loop", "lbl_gen", "v_int", "v_bool", "v_acc", "g_gen", "p_port", "m_inc",
+    "m_get", "ic", "integer", "boolean", "now", "textio", "undefined_name", "loc_fn", "loc_pr",
+];
+
+/// (region, line template with `@` for the substituted name, default name). Regions: d = architecture declarative
+/// part, c = concurrent statements, s = sequential statements of process lbl_proc (inside loop lbl_loop: l)
+pub const ZOO_SITES: &[(&str, &str, &str)] = &[
+    ("d", "  constant k_init : integer := @;", "c_int"),
+    ("d", "  signal s_con : bit_vector(0 to @);", "c_int"),
+    ("d", "  subtype st_loc is integer range @ to 9;", "c_int"),
+    ("d", "  signal s_typ : @;", "st_int"),
+    ("d", "  signal s_typ2 : t_uarr(0 to 1) := (others => @);", "c_int"),
+    ("d", "  constant k_att : integer := @'length;", "c_arr"),
+    ("d", "  constant k_att2 : integer := @'pos(lit_a);", "t_enum"),
+    ("d", "  constant k_att3 : integer := t_enum'pos(@);", "lit_a"),
+    ("d", "  constant k_idx : integer := c_arr(@);", "c_int"),
+    ("d", "  constant k_idx2 : integer := @(1);", "c_arr"),
+    ("d", "  constant k_call : integer := f_arg(@);", "c_int"),
+    ("d", "  constant k_call2 : integer := f_arg(x => @);", "c_int"),
+    ("d", "  constant k_call3 : integer := f_arg(@ => 1);", "x"),
+    ("d", "  constant k_fn : integer := @;", "f_none"),
+    ("d", "  constant k_sel : integer := c_rec.@;", "el"),
+    ("d", "  constant k_pre : integer := @.el;", "c_rec"),
+    ("d", "  constant k_pre2 : integer := lib.zoo_pkg.@;", "c_int"),
+    ("d", "  constant k_pre3 : integer := lib.@.c_int;", "zoo_pkg"),
+    ("d", "  constant k_pre4 : integer := @.zoo_pkg.c_int;", "lib"),
+    ("d", "  alias al_loc is @;", "c_int"),
+    ("d", "  alias al_sub is @[integer return integer];", "f_arg"),
+    ("d", "  attribute at_attr of @ : signal is 1;", "s_con"),
+    ("d", "  attribute @ of s_typ : signal is 1;", "at_attr"),
+    ("d", "  constant k_ua : integer := @'at_attr;", "c_int"),
+    ("d", "  constant k_qual : integer := @'(3);", "st_int"),
+    ("d", "  constant k_conv : integer := @(3);", "st_int"),
+    ("d", "  constant k_phys : t_phys := 3 @;", "u_a"),
+    ("d", "  constant k_agg : t_rec := (@ => 1, el2 => '0');", "el"),
+    ("d", "  constant k_op : boolean := @ = 1;", "c_int"),
+    ("d", "  constant k_op2 : integer := - @;", "c_int"),
+    ("d", "  constant k_op3 : t_rec := c_rec + @;", "c_rec"),
+    ("d", "  constant k_rng : integer := c_uarr(@ to 1)'length;", "c_int"),
+    ("d", "  subtype st_arr is t_uarr(@'range);", "c_arr"),
+    ("d", "  subtype st_res is @ integer;", "loc_res"),
+    ("d", "  type t_loc is array (@) of bit;", "t_enum"),
+    ("d", "  type t_loc2 is array (0 to 1) of @;", "st_int"),
+    ("d", "  type t_loc3 is access @;", "st_int"),
+    ("d", "  type t_loc4 is file of @;", "st_int"),
+    ("d", "  type t_loc5 is record rel : @; end record;", "st_int"),
+    ("d", "  file fl_loc : @;", "t_file"),
+    ("d", "  for all : @ use entity work.zoo_leaf;", "comp_c"),
+    ("d", "  function loc_ret return integer is begin return @; end;", "c_int"),
+    ("d", "  function loc_ret2 return @ is begin return 1; end;", "st_int"),
+    ("d", "  procedure loc_par(x : @ := 1) is begin null; end;", "st_int"),
+    ("d", "  procedure loc_par2(x : integer := @) is begin null; end;", "c_int"),
+    ("d", "  use @.all;", "inner_pkg"),
+    ("d", "  use lib.zoo_pkg.@;", "c_int"),
+    ("d", "  package loc_inst is new work.@ generic map (g => 1);", "zoo_gen"),
+    ("d", "  package loc_inst2 is new work.zoo_gen generic map (g => @);", "c_int"),
+    ("c", "  s_out <= @;", "s_sig"),
+    ("c", "  s_out2 <= '1' when @ = 1 else '0';", "c_int"),
+    ("c", "  s_out3 <= '1' when @ else '0';", "c_bool"),
+    ("c", "  s_out4 <= '1' after @;", "c_time"),
+    ("c", "  lbl_i1 : @ port map (a => s_out);", "comp_c"),
+    ("c", "  lbl_i2 : component @;", "comp_c"),
+    ("c", "  lbl_i3 : entity work.@;", "zoo_leaf"),
+    ("c", "  lbl_i4 : entity work.zoo_leaf(@);", "leaf_arch"),
+    ("c", "  lbl_i5 : comp_c port map (a => @);", "s_sig"),
+    ("c", "  lbl_i6 : comp_c port map (@ => s_sig);", "a"),
+    ("c", "  lbl_i7 : entity work.zoo_gent generic map (g => @);", "c_int"),
+    ("c", "  lbl_i8 : configuration work.@;", "zoo_cfg"),
+    ("c", "  @;", "p_none"),
+    ("c", "  lbl_c2 : @(1);", "p_arg"),
+    ("c", "  lbl_g1 : for gi in 0 to @ generate begin end generate;", "c_int"),
+    ("c", "  lbl_g2 : if @ generate begin end generate;", "c_bool"),
+    ("c", "  lbl_g3 : case @ generate when others => end generate;", "c_int"),
+    ("c", "  lbl_g4 : for gi in @ generate begin end generate;", "t_enum"),
+    ("c", "  with @ select s_out5 <= '1' when 0, '0' when others;", "c_int"),
+    ("c", "  with c_int select s_out6 <= '1' when @, '0' when others;", "c_def"),
+    ("c", "  assert @ report \"x\";", "c_bool"),
+    ("c", "  assert true report \"x\" severity @;", "note"),
+    ("c", "  lbl_b2 : block (@) begin end block;", "c_bool"),
+    ("c", "  lbl_p2 : process (@) begin end process;", "s_sig"),
+    ("s", "    v_bool := @ = 1;", "c_int"),
+    ("s", "    v_bool := 1 < @;", "c_int"),
+    ("s", "    v_bool := not @;", "c_bool"),
+    ("s", "    if @ then null; end if;", "c_bool"),
+    ("s", "    if v_bool then null; elsif @ then null; end if;", "c_bool"),
+    ("s", "    case @ is when others => null; end case;", "c_int"),
+    ("s", "    case c_enum is when @ => null; when others => null; end case;", "lit_a"),
+    ("s", "    case c_int is when 0 to @ => null; when others => null; end case;", "c_def"),
+    ("s", "    for li in 0 to @ loop null; end loop;", "c_int"),
+    ("s", "    for li in @'range loop null; end loop;", "c_arr"),
+    ("s", "    for li in @ loop null; end loop;", "t_enum"),
+    ("s", "    for li in @ range 0 to 1 loop null; end loop;", "st_int"),
+    ("s", "    while @ loop exit; end loop;", "c_bool"),
+    ("s", "    v_int := c_arr(@);", "c_int"),
+    ("s", "    v_int := c_arr(@ to 2)'length;", "c_int"),
+    ("s", "    v_int := @;", "c_int"),
+    ("s", "    v_int := @ + 1;", "f_none"),
+    ("s", "    v_int := @(1);", "f_arg"),
+    ("s", "    v_int := @ when v_bool else 0;", "c_int"),
+    ("s", "    v_int := 1 when @ else 0;", "c_bool"),
+    ("s", "    @ := 1;", "v_int"),
+    ("s", "    @(0) := 1;", "v_arr"),
+    ("s", "    @.el := 1;", "v_rec"),
+    ("s", "    (@, v_int2) := c_pair;", "v_int"),
+    ("s", "    @ <= '1';", "s_out7"),
+    ("s", "    s_out7 <= @ after 1 ns;", "s_sig"),
+    ("s", "    s_out7 <= force @;", "s_sig"),
+    ("s", "    @;", "p_none"),
+    ("s", "    @(1);", "p_arg"),
+    ("s", "    p_arg(@);", "c_int"),
+    ("s", "    sv_prot.@;", "m_inc"),
+    ("s", "    v_int := sv_prot.@;", "m_get"),
+    ("s", "    @.m_inc;", "sv_prot"),
+    ("s", "    wait until @;", "c_bool"),
+    ("s", "    wait on @;", "s_sig"),
+    ("s", "    wait for @;", "c_time"),
+    ("s", "    report integer'image(@);", "c_int"),
+    ("s", "    report @'image(1);", "integer"),
+    ("s", "    report \"x\" severity @;", "note"),
+    ("s", "    assert @;", "c_bool"),
+    ("s", "    v_acc := new @;", "st_int"),
+    ("s", "    v_acc := new integer'(@);", "c_int"),
+    ("s", "    v_int := v_acc.@;", "all"),
+    ("s", "    deallocate(@);", "v_acc"),
+    ("s", "    v_int := @'length;", "v_arr"),
+    ("s", "    v_bool := @'event;", "s_sig"),
+    ("s", "    v_int := integer'(@);", "c_int"),
+    ("s", "    v_int := << constant .zoo_ent.@ : integer >>;", "k_init"),
+    ("l", "      exit @ when v_bool;", "lbl_loop"),
+    ("l", "      next @;", "lbl_loop"),
+    ("l", "      exit lbl_loop when @;", "c_bool"),
+];
+
+pub fn zoo_uses(names: &[&str]) -> (String, Vec<usize>) {
+    // returns the text of uses.vhd and, per site, its line number
+    let mut t = String::from(
+        "library lib;\nuse lib.zoo_pkg.all;\n\npackage zoo_gen is\n  generic (g : integer := 0);\nend package;\n\nentity zoo_gent is\n  generic (g : integer := 0);\nend entity;\n\narchitecture ga of zoo_gent is\nbegin\nend architecture;\n\nlibrary lib;\nuse lib.zoo_pkg.all;\n\nentity zoo_ent is\n  generic (g_gen : integer := 1);\n  port (p_port : in bit := '0');\nend entity zoo_ent;\n\narchitecture zoo_arch of zoo_ent is\n  function loc_res(v : t_uarr) return integer is begin return 0; end;\n  function loc_fn return integer is begin return 1; end;\n  procedure loc_pr is begin null; end;\n  type t_pair is record a : integer; b : integer; end record;\n  constant c_pair : t_pair := (1, 2);\n  signal s_out, s_out2, s_out3, s_out4, s_out5, s_out6, s_out7 : bit;\n",
+    );
+    let mut lines = vec![0usize; ZOO_SITES.len()];
+    let count = |s: &str| s.matches('\n').count();
+    let emit = |t: &mut String, lines: &mut Vec<usize>, region: &str| {
+        for (i, (r, tpl, _)) in ZOO_SITES.iter().enumerate() {
+            if *r == region {
+                lines[i] = count(t);
+                t.push_str(&tpl.replace('@', names[i]));
+                t.push('\n');
+            }
+        }
+    };
+    emit(&mut t, &mut lines, "d");
+    t.push_str("begin\n  lbl_blk : block begin end block;\n  lbl_inst : comp_c;\n  lbl_gen : if true generate begin end generate;\n");
+    emit(&mut t, &mut lines, "c");
+    t.push_str("  lbl_proc : process\n    variable v_int, v_int2 : integer;\n    variable v_bool : boolean;\n    variable v_acc : t_acc;\n    variable v_arr : t_arr;\n    variable v_rec : t_rec;\n  begin\n");
+    emit(&mut t, &mut lines, "s");
+    t.push_str("    lbl_loop : loop\n");
+    emit(&mut t, &mut lines, "l");
+    t.push_str("      exit;\n    end loop lbl_loop;\n    wait;\n  end process lbl_proc;\nend architecture zoo_arch;\n\nconfiguration zoo_cfg of zoo_leaf is\n  for leaf_arch\n  end for;\nend configuration;\n");
+    (t, lines)
+}
+
+/// one name per kind: the per-site sweep of the quick tier uses these, the thorough tier all of ZOO_NAMES
+pub const ZOO_CORE: &[&str] = &[
+    "p_none", "p_def", "p_arg", "p_ovl", "f_none", "f_arg", "f_ovl", "t_enum", "st_int", "t_rec", "t_prot", "lit_a", "u_a", "el", "c_int", "c_rec",
+    "s_sig", "sv_prot", "fl_file", "a_obj", "a_typ", "a_sub", "a_proc", "at_attr", "comp_c", "inner_pkg", "zoo_pkg", "lib", "zoo_ent", "zoo_arch",
+    "lbl_proc", "lbl_loop", "v_int", "undefined_name",
+];
+
+fn zoo_base() -> (Vec<(String, String)>, Vec<usize>, Vec<&'static str>) {
+    let defaults: Vec<&str> = ZOO_SITES.iter().map(|s| s.2).collect();
+    let (uses, lines) = zoo_uses(&defaults);
+    (vec![("zoo_pkg.vhd".to_string(), ZOO_PKG.to_string()), ("uses.vhd".to_string(), uses)], lines, defaults)
+}
+
+/// per-site sweep: the identifier at ONE use site is replaced by every name in turn
+pub fn zoo_case(id: String, site: usize, all_names: bool) -> Case {
+    let (files, lines, defaults) = zoo_base();
+    let line = lines[site] as u32;
+    let tpl = ZOO_SITES[site].1;
+    let mut edits = vec![];
+    let mut cur_len = tpl.replace('@', defaults[site]).encode_utf16().count() as u32;
+    let names: &[&str] = if all_names { ZOO_NAMES } else { ZOO_CORE };
+    for name in names.iter() {
+        let new = tpl.replace('@', name);
+        edits.push(Edit { file: "uses.vhd".into(), range: Some([line, 0, line, cur_len]), text: new.clone(), kind: "kind-confusion".into() });
+        cur_len = new.encode_utf16().count() as u32;
+    }
+    // back to the valid text
+    edits.push(Edit { file: "uses.vhd".into(), range: Some([line, 0, line, cur_len]), text: tpl.replace('@', defaults[site]), kind: "kind-confusion-restore".into() });
+    Case { id, family: "kinds".into(), std_mode: "std".into(), libs: vec![("lib".to_string(), vec!["zoo_pkg.vhd".into(), "uses.vhd".into()])], files, edits, cursors: vec![] }
+}
+
+/// batch sweep: ALL use sites of one region get the same name at once (whole-document change), for every name
+pub fn zoo_batch_case(id: String, region: &str) -> Case {
+    let (files, _lines, defaults) = zoo_base();
+    let mut edits = vec![];
+    for name in ZOO_NAMES.iter() {
+        let names: Vec<&str> = ZOO_SITES.iter().enumerate().map(|(i, s)| if s.0 == region { *name } else { defaults[i] }).collect();
+        let (text, _) = zoo_uses(&names);
+        edits.push(Edit { file: "uses.vhd".into(), range: None, text, kind: "kind-confusion-batch".into() });
+    }
+    edits.push(Edit { file: "uses.vhd".into(), range: None, text: files[1].1.clone(), kind: "kind-confusion-restore".into() });
+    Case { id, family: "kinds-batch".into(), std_mode: "std".into(), libs: vec![("lib".to_string(), vec!["zoo_pkg.vhd".into(), "uses.vhd".into()])], files, edits, cursors: vec![] }
+}
+
+/// mode 1 = every name at every site, 2 = one name per kind at every site; the region batches always
+pub fn zoo_cases(seed: u64, mode: usize) -> Vec<Case> {
+    let mut v: Vec<Case> = ["d", "c", "s", "l"].iter().map(|r| zoo_batch_case(format!("kb{seed}-{r}"), r)).collect();
+    v.extend((0..ZOO_SITES.len()).map(|s| zoo_case(format!("k{seed}-{s}"), s, mode == 1)));
+    v
 }
